@@ -535,6 +535,9 @@ pub struct C07Ctx<'a> {
     /// which connection objects were dropped by the program (their ConnDone is not expected)
     pub dropped_conn: [bool; 2],
     pub ending: String,
+    /// the program has two tasks waiting on the same stream's send side (SendRequest::ready() behind a
+    /// queued request + poll_capacity/poll_reset on that request's SendStream)
+    pub two_send_waiters: bool,
 }
 
 pub fn check_c07(cx: &C07Ctx, out: &mut Outcome) {
@@ -550,10 +553,16 @@ pub fn check_c07(cx: &C07Ctx, out: &mut Outcome) {
             Some(true) => "they complete once re-polled: lost wake-up",
             _ => "they stay pending even when re-polled",
         };
+        let only_send_waiters = kinds.iter().any(|k| matches!(k.as_str(), "c-body" | "c-second" | "c-resetwatch")); // (others pending are downstream of it)
+        let sig = if cx.two_send_waiters && only_send_waiters && cx.completed_when_repolled == Some(true) {
+            "C07/two-waiters-share-the-stream-send-task-slot".to_string()
+        } else {
+            format!("C07/hang-after-{}/{}", cx.ending, kinds.join("+"))
+        };
         out.fail(
             "C07",
             "ending/hang",
-            format!("C07/hang-after-{}/{}", cx.ending, kinds.join("+")),
+            sig,
             format!("after the connection ended ({}) tasks {:?} are still pending at quiescence; {}", cx.ending, pending.iter().map(|p| &p.0).collect::<Vec<_>>(), how),
         );
     }
